@@ -1,20 +1,209 @@
-// Package vos mirrors the part of package os that package cred uses, with a
-// seam for recording and failing file writes (C20).
+// Package vos mirrors the part of package os that package cred may use for
+// saving the credential file, with a seam that records every mutating file
+// operation (and can fail a write after k bytes).  Operations are still carried
+// out on the real file system; the log lets a check materialise every crash
+// point of a save (C20).
 package vos
 
-import "os"
-
-type (
-	FileMode = os.FileMode
-	File     = os.File
+import (
+	"errors"
+	"io/fs"
+	"os"
+	"syscall"
 )
 
-// WriteFileHook, when set, replaces os.WriteFile.
-var WriteFileHook func(name string, data []byte, perm FileMode) error
+type (
+	FileMode  = os.FileMode
+	FileInfo  = os.FileInfo
+	DirEntry  = os.DirEntry
+	PathError = os.PathError
+	Signal    = os.Signal
+)
+
+const (
+	O_RDONLY = os.O_RDONLY
+	O_WRONLY = os.O_WRONLY
+	O_RDWR   = os.O_RDWR
+	O_APPEND = os.O_APPEND
+	O_CREATE = os.O_CREATE
+	O_EXCL   = os.O_EXCL
+	O_SYNC   = os.O_SYNC
+	O_TRUNC  = os.O_TRUNC
+	ModePerm = os.ModePerm
+)
+
+var (
+	ErrNotExist         = os.ErrNotExist
+	ErrExist            = os.ErrExist
+	ErrPermission       = os.ErrPermission
+	ErrClosed           = os.ErrClosed
+	ErrDeadlineExceeded = os.ErrDeadlineExceeded
+	Stderr              = os.Stderr
+	Stdout              = os.Stdout
+	Stdin               = os.Stdin
+)
+
+// Op is one logged mutating operation.
+type Op struct {
+	Kind                  string // open (with Trunc/Create flags), write, close, rename, remove, sync, chmod
+	Name                  string
+	To                    string
+	Data                  []byte
+	Trunc, Create, Append bool
+	Handle                int
+}
+
+// Recorder receives the operation log and may inject write failures.
+type Recorder struct {
+	Ops []Op
+	// FailWriteAt, when >= 0, makes the FailWriteIndex-th write operation (0-based,
+	// counted over the whole log) persist only that many bytes and return ENOSPC.
+	FailWriteIndex int
+	FailWriteAt    int
+	writes         int
+	handles        int
+}
+
+// Rec, when non-nil, records operations.
+var Rec *Recorder
+
+// NewRecorder returns a recorder that injects no failure.
+func NewRecorder() *Recorder { return &Recorder{FailWriteIndex: -1, FailWriteAt: -1} }
+
+func (r *Recorder) log(op Op) {
+	if r != nil {
+		r.Ops = append(r.Ops, op)
+	}
+}
+
+// limit returns how many bytes of a write may persist and the error to return.
+func (r *Recorder) limit(n int) (int, error) {
+	if r == nil {
+		return n, nil
+	}
+	i := r.writes
+	r.writes++
+	if i == r.FailWriteIndex && r.FailWriteAt >= 0 && r.FailWriteAt < n {
+		return r.FailWriteAt, &os.PathError{Op: "write", Err: syscall.ENOSPC}
+	}
+	return n, nil
+}
+
+// File wraps *os.File so that writes are logged.
+type File struct {
+	f      *os.File
+	name   string
+	handle int
+}
+
+func wrap(f *os.File, name string, flag int) *File {
+	h := 0
+	if Rec != nil {
+		Rec.handles++
+		h = Rec.handles
+		if flag&(os.O_WRONLY|os.O_RDWR) != 0 {
+			Rec.log(Op{Kind: "open", Name: name, Trunc: flag&os.O_TRUNC != 0, Create: flag&os.O_CREATE != 0, Append: flag&os.O_APPEND != 0, Handle: h})
+		}
+	}
+	return &File{f: f, name: name, handle: h}
+}
+
+func (f *File) Name() string { return f.f.Name() }
+func (f *File) Write(b []byte) (int, error) {
+	n, ferr := Rec.limit(len(b))
+	m, err := f.f.Write(b[:n])
+	Rec.log(Op{Kind: "write", Name: f.name, Data: append([]byte(nil), b[:m]...), Handle: f.handle})
+	if err == nil {
+		err = ferr
+	}
+	return m, err
+}
+func (f *File) WriteString(s string) (int, error) { return f.Write([]byte(s)) }
+func (f *File) Read(b []byte) (int, error)        { return f.f.Read(b) }
+func (f *File) Sync() error {
+	Rec.log(Op{Kind: "sync", Name: f.name, Handle: f.handle})
+	return f.f.Sync()
+}
+func (f *File) Close() error {
+	Rec.log(Op{Kind: "close", Name: f.name, Handle: f.handle})
+	return f.f.Close()
+}
+func (f *File) Chmod(m FileMode) error  { return f.f.Chmod(m) }
+func (f *File) Stat() (FileInfo, error) { return f.f.Stat() }
+func (f *File) Truncate(n int64) error {
+	if n == 0 {
+		Rec.log(Op{Kind: "open", Name: f.name, Trunc: true, Handle: f.handle})
+	} else {
+		return errors.New("vos: Truncate(n>0) not modelled")
+	}
+	return f.f.Truncate(n)
+}
+func (f *File) Fd() uintptr { return f.f.Fd() }
+
+func OpenFile(name string, flag int, perm FileMode) (*File, error) {
+	f, err := os.OpenFile(name, flag, perm)
+	if err != nil {
+		return nil, err
+	}
+	return wrap(f, name, flag), nil
+}
+
+func Create(name string) (*File, error) {
+	return OpenFile(name, os.O_RDWR|os.O_CREATE|os.O_TRUNC, 0o666)
+}
+
+func Open(name string) (*File, error) { return OpenFile(name, os.O_RDONLY, 0) }
+
+func CreateTemp(dir, pattern string) (*File, error) {
+	f, err := os.CreateTemp(dir, pattern)
+	if err != nil {
+		return nil, err
+	}
+	return wrap(f, f.Name(), os.O_RDWR|os.O_CREATE), nil
+}
 
 func WriteFile(name string, data []byte, perm FileMode) error {
-	if WriteFileHook != nil {
-		return WriteFileHook(name, data, perm)
+	f, err := OpenFile(name, os.O_WRONLY|os.O_CREATE|os.O_TRUNC, perm)
+	if err != nil {
+		return err
 	}
-	return os.WriteFile(name, data, perm)
+	_, err = f.Write(data)
+	if err1 := f.Close(); err1 != nil && err == nil {
+		err = err1
+	}
+	return err
 }
+
+func ReadFile(name string) ([]byte, error) { return os.ReadFile(name) }
+
+func Rename(oldpath, newpath string) error {
+	err := os.Rename(oldpath, newpath)
+	if err == nil {
+		Rec.log(Op{Kind: "rename", Name: oldpath, To: newpath})
+	}
+	return err
+}
+
+func Remove(name string) error {
+	err := os.Remove(name)
+	if err == nil {
+		Rec.log(Op{Kind: "remove", Name: name})
+	}
+	return err
+}
+
+func Chmod(name string, mode FileMode) error    { return os.Chmod(name, mode) }
+func Stat(name string) (FileInfo, error)        { return os.Stat(name) }
+func Lstat(name string) (FileInfo, error)       { return os.Lstat(name) }
+func MkdirAll(path string, perm FileMode) error { return os.MkdirAll(path, perm) }
+func Mkdir(path string, perm FileMode) error    { return os.Mkdir(path, perm) }
+func IsNotExist(err error) bool                 { return os.IsNotExist(err) }
+func IsExist(err error) bool                    { return os.IsExist(err) }
+func Getenv(k string) string                    { return os.Getenv(k) }
+func TempDir() string                           { return os.TempDir() }
+func ReadDir(name string) ([]DirEntry, error)   { return os.ReadDir(name) }
+func Getpid() int                               { return os.Getpid() }
+func NewSyscallError(s string, err error) error { return os.NewSyscallError(s, err) }
+func SameFile(a, b FileInfo) bool               { return os.SameFile(a, b) }
+func DirFS(dir string) fs.FS                    { return os.DirFS(dir) }
+func Exit(code int)                             { os.Exit(code) }
